@@ -194,3 +194,38 @@ def generate_c01(repo):
     except SyntaxError as e:
       errors.append((fn.qual, repr(e)))
   return "\n".join(out), errors
+
+
+# ---------------------------------------------------------------------------------------------
+# C16: the OGD and diagonal-AdaGrad update functions of precondition/oco/algorithms.py
+# ---------------------------------------------------------------------------------------------
+OCO = "precondition/oco/algorithms.py"
+OGD_UPDATE = Fn("_ogd_update_fn", "ogd_update_fn",
+                [("rs", "Q -> Q"), ("lr", "Q"), ("delta", "Q"), ("state_w", "vec"), ("state_t", "Q"),
+                 ("grad", "vec")], "(list Q) * Q",
+                subst={"hparams.lr": ("lr", "Q"), "hparams.delta": ("delta", "Q")},
+                calls={"jax.lax.rsqrt": ("rs", "Q->Q")}, drop_params=("state", "loss", "hparams"))
+ADA_UPDATE = Fn("_diag_adagrad_update_fn", "ada_update_fn",
+                [("rs", "Q -> Q"), ("lr", "Q"), ("state_w", "vec"), ("state_diag_h", "vec"), ("grad", "vec")],
+                "(list Q) * (list Q)",
+                subst={"hparams.lr": ("lr", "Q")},
+                calls={"jax.lax.rsqrt": ("rs", "Q->Q")}, drop_params=("state", "loss", "hparams"))
+
+
+def generate_c16(repo):
+  from tools import py2v, py2v_float
+  header = ("From Precond Require Import Base.PyLib Base.QMat Base.PyFloat.\nOpen Scope Q_scope.\n")
+  out, errors = [header], []
+  try:
+    src = open(os.path.join(repo, OCO)).read()
+  except OSError as e:
+    return header, [("read", repr(e))]
+  for fn, fields in ((OGD_UPDATE, ["w", "t"]), (ADA_UPDATE, ["w", "diag_h"])):
+    try:
+      out.append(py2v_float.translate(src, fn, state_fields=fields, ignore_asserts=True))
+      out.append("")
+    except py2v.TranslationError as e:
+      errors.append((fn.qual, str(e)))
+    except SyntaxError as e:
+      errors.append((fn.qual, repr(e)))
+  return "\n".join(out), errors
